@@ -941,6 +941,161 @@ fn fam_mapneg(_func: Option<&str>, only: Option<u64>) {
     rep.print();
 }
 
+// C05, bounded stand-in for the ASSUMED conversion Runtype -> SemType of NAMED, possibly RECURSIVE types
+// (subtyping/mod.rs: convert_to_sem_type and its *_runtype_ref_memo cuts) together with the deciders on the
+// result. Questions are of the form  S(v) <: B  where S(v) is the singleton type of a finite value v (consts,
+// closed tuples, objects with required properties only: the "exact value" of the property text) and B a type
+// over a small set of named definitions. The oracle is membership of v in B by recursion on the value - exact
+// in both directions, so every disagreement is a definite wrong answer (no completeness bound involved).
+#[derive(Clone, Debug, PartialEq)]
+enum RVal { Null, Bool(bool), Num(i64), Str(&'static str), List(Vec<RVal>), Obj(Vec<(&'static str, RVal)>) }
+
+fn rv_uuid(name: &str) -> RuntypeUUID {
+    RuntypeUUID {
+        ty: RuntypeName::Address(beff_core::TypeAddress { file: beff_core::BffFileName::new("twin.bff".into()), name: name.into() }),
+        type_arguments: vec![],
+    }
+}
+// a small type language mirrored into Runtype
+#[derive(Clone, Debug)]
+enum RT { Null, Bool, Num, Str, NumC(i64), StrC(&'static str), Arr(Box<RT>), Tup(Vec<RT>, Option<Box<RT>>), Obj(Vec<(&'static str, RT, bool)>), Or(Vec<RT>), Ref(&'static str) }
+fn rt_to_runtype(t: &RT) -> beff_core::ast::runtype::Runtype {
+    use beff_core::ast::runtype::{Runtype, RuntypeConst};
+    match t {
+        RT::Null => Runtype::null(),
+        RT::Bool => Runtype::boolean(),
+        RT::Num => Runtype::number(),
+        RT::Str => Runtype::string(),
+        RT::NumC(i) => Runtype::const_(RuntypeConst::parse_int(*i)),
+        RT::StrC(s) => Runtype::single_string_const(s),
+        RT::Arr(i) => Runtype::array(Box::new(rt_to_runtype(i))),
+        RT::Tup(p, r) => Runtype::tuple(p.iter().map(rt_to_runtype).collect(), r.as_ref().map(|x| Box::new(rt_to_runtype(x)))),
+        RT::Obj(fs) => Runtype::object(fs.iter().map(|(k, t, req)| (k.to_string(), if *req { rt_to_runtype(t).required() } else { rt_to_runtype(t).optional() })).collect()),
+        RT::Or(vs) => Runtype::any_of(vs.iter().map(rt_to_runtype).collect()),
+        RT::Ref(n) => Runtype::ref_(rv_uuid(n)),
+    }
+}
+fn rt_member(t: &RT, v: &RVal, defs: &[(&'static str, RT)]) -> bool {
+    match t {
+        RT::Null => *v == RVal::Null,
+        RT::Bool => matches!(v, RVal::Bool(_)),
+        RT::Num => matches!(v, RVal::Num(_)),
+        RT::Str => matches!(v, RVal::Str(_)),
+        RT::NumC(i) => *v == RVal::Num(*i),
+        RT::StrC(s) => *v == RVal::Str(s),
+        RT::Arr(i) => match v { RVal::List(xs) => xs.iter().all(|x| rt_member(i, x, defs)), _ => false },
+        RT::Tup(p, r) => match v {
+            RVal::List(xs) => xs.len() >= p.len() && (xs.len() == p.len() || r.is_some())
+                && xs.iter().enumerate().all(|(i, x)| if i < p.len() { rt_member(&p[i], x, defs) } else { rt_member(r.as_ref().unwrap(), x, defs) }),
+            _ => false,
+        },
+        // structural reading: declared properties constrain, others are free
+        RT::Obj(fs) => match v {
+            RVal::Obj(kv) => fs.iter().all(|(k, t, req)| match kv.iter().find(|(k2, _)| k2 == k) { Some((_, x)) => rt_member(t, x, defs), None => !*req }),
+            _ => false,
+        },
+        RT::Or(vs) => vs.iter().any(|t| rt_member(t, v, defs)),
+        // every Ref in the universe below is guarded by a value constructor, so this recursion follows the value
+        RT::Ref(n) => rt_member(&defs.iter().find(|(k, _)| k == n).unwrap().1, v, defs),
+    }
+}
+fn rv_singleton(v: &RVal) -> RT {
+    match v {
+        RVal::Null => RT::Null,
+        RVal::Bool(_) => RT::Bool, // not a singleton: handled by the caller (booleans are not generated)
+        RVal::Num(i) => RT::NumC(*i),
+        RVal::Str(s) => RT::StrC(s),
+        RVal::List(xs) => RT::Tup(xs.iter().map(rv_singleton).collect(), None),
+        RVal::Obj(kv) => RT::Obj(kv.iter().map(|(k, x)| (*k, rv_singleton(x), true)).collect()),
+    }
+}
+fn rv_values(depth: usize) -> Vec<RVal> {
+    let atoms = vec![RVal::Null, RVal::Num(1), RVal::Str("a")];
+    if depth == 0 { return atoms; }
+    let sub = rv_values(depth - 1);
+    let mut out = atoms;
+    out.push(RVal::List(vec![]));
+    for a in &sub {
+        out.push(RVal::List(vec![a.clone()]));
+        out.push(RVal::Obj(vec![("v", RVal::Num(1)), ("next", a.clone())]));
+    }
+    // pairs only over a thinned sub-universe (keeps the product small)
+    let thin: Vec<&RVal> = sub.iter().take(14).collect();
+    for a in &thin { for b in &thin { out.push(RVal::List(vec![(*a).clone(), (*b).clone()])); } }
+    let thin3: Vec<&RVal> = sub.iter().take(5).collect();
+    for a in &thin3 { for b in &thin3 { for c in &thin3 { out.push(RVal::List(vec![(*a).clone(), (*b).clone(), (*c).clone()])); } } }
+    out.dedup();
+    out
+}
+fn fam_refs(_func: Option<&str>, only: Option<u64>, panics_only: bool) {
+    let mut rep = Rep::new(if panics_only { "refspanic" } else { "refs" }, "convert_to_sem_type", only);
+    let b = |t: RT| Box::new(t);
+    let defs: Vec<(&'static str, RT)> = vec![
+        // recursive tuple with itself as rest
+        ("T", RT::Tup(vec![RT::Num], Some(b(RT::Ref("T"))))),
+        // recursive closed tuple through a union
+        ("U", RT::Or(vec![RT::Null, RT::Tup(vec![RT::Num, RT::Ref("U")], None)])),
+        // recursive object (linked list)
+        ("L", RT::Obj(vec![("v", RT::Num, true), ("next", RT::Or(vec![RT::Null, RT::Ref("L")]), true)])),
+        // mutually recursive tuples
+        ("A", RT::Tup(vec![RT::Num], Some(b(RT::Ref("B"))))),
+        ("B", RT::Tup(vec![RT::Str], Some(b(RT::Ref("A"))))),
+        // named non-recursive tuples, closed and open
+        ("P", RT::Tup(vec![RT::Num, RT::Str], None)),
+        ("Q", RT::Tup(vec![RT::Num], Some(b(RT::Str)))),
+        // array of itself
+        ("R", RT::Arr(b(RT::Ref("R")))),
+        // tuple whose prefix mentions itself inside an array
+        ("W", RT::Tup(vec![RT::Arr(b(RT::Ref("W")))], None)),
+    ];
+    let mut targets: Vec<RT> = vec![];
+    for (n, _) in &defs {
+        targets.push(RT::Ref(n));
+        targets.push(RT::Arr(b(RT::Ref(n))));
+        targets.push(RT::Tup(vec![RT::Ref(n)], None));
+        targets.push(RT::Tup(vec![RT::Num], Some(b(RT::Ref(n)))));
+        targets.push(RT::Or(vec![RT::Null, RT::Ref(n)]));
+        targets.push(RT::Obj(vec![("next", RT::Ref(n), true)]));
+    }
+    targets.push(RT::Or(vec![RT::Ref("T"), RT::Ref("P")]));
+    targets.push(RT::Or(vec![RT::Ref("A"), RT::Ref("B")]));
+    targets.push(RT::Tup(vec![RT::Ref("P"), RT::Ref("Q")], None));
+    let named: Vec<NamedSchema> = defs.iter().map(|(n, t)| NamedSchema { name: rv_uuid(n), schema: rt_to_runtype(t) }).collect();
+    let values = rv_values(2);
+    let mut skipped = 0u64;
+    std::panic::set_hook(Box::new(|_| {}));
+    for t in &targets {
+        for v in &values {
+            if !rep.want() { continue; }
+            let spec = rt_member(t, v, &defs);
+            // a panic inside the real code is a failure of this case (C04 speaks about it too); go on with the next
+            let tt = t.clone();
+            let vv = v.clone();
+            let nr: Vec<NamedSchema> = named.clone();
+            let out = std::panic::catch_unwind(move || -> Result<Option<bool>, String> {
+                let nrefs: Vec<&NamedSchema> = nr.iter().collect();
+                let mut ctx = SemTypeContext::new();
+                // a refused conversion (Err) is not an answer: such targets are skipped, not counted as failures
+                let tb = match rt_to_runtype(&tt).to_sem_type(&nrefs, &mut ctx) { Ok(x) => x, Err(_) => return Ok(None) };
+                let ta = match rt_to_runtype(&rv_singleton(&vv)).to_sem_type(&nrefs, &mut ctx) { Ok(x) => x, Err(_) => return Ok(None) };
+                match ta.is_subtype(&tb, &mut ctx) { Ok(r) => Ok(Some(r)), Err(e) => Err(format!("{}", e)) }
+            });
+            match out {
+                Ok(Ok(None)) => { skipped += 1; }
+                Ok(Ok(Some(r))) => if r != spec && !panics_only {
+                    rep.fail(format!("value {:?} against type {:?} with definitions {:?}", v, t, defs),
+                             format!("(singleton type of the value) is_subtype (type) = {}", r),
+                             format!("{} (membership of the value in the type, by recursion on the value)", spec));
+                },
+                Ok(Err(e)) => if !panics_only { rep.fail(format!("value {:?} against type {:?}", v, t), format!("is_subtype Err({})", e), "Ok".into()) },
+                Err(_) => rep.fail(format!("value {:?} against type {:?} with definitions {:?}", v, t, defs), "the real code PANICS".into(), format!("{}", spec)),
+            }
+        }
+    }
+    eprintln!("refs: {} questions skipped because the conversion was refused (Err)", skipped);
+    rep.print();
+}
+
 fn main() {
     let args: Vec<String> = std::env::args().collect();
     let fam = args.get(1).map(|s| s.as_str()).unwrap_or("all");
@@ -971,6 +1126,8 @@ fn main() {
         "listfold" => fam_listfold(f, only),
         "listneg" => fam_listneg(f, only),
         "mapneg" => fam_mapneg(f, only),
+        "refs" => fam_refs(f, only, false),
+        "refspanic" => fam_refs(f, only, true),
         _ => {
             fam_bdd(f, only);
             fam_dnf(f, only);
